@@ -60,11 +60,33 @@ def main():
         tail = [l for l in outt.strip().split("\n") if "passed" in l or "failed" in l or "error" in l][-1:]
         meta["suite_with_change"] = tail[0] if tail else outt[-200:]
         meta["suite_passes_with_change"] = rct == 0 and "652 passed" in (tail[0] if tail else "")
+        if "--worktree" in sys.argv:
+            # the checks are run against THIS scratch worktree (EG_REPO), /repo itself is not touched:
+            # used for bulk re-runs in parallel; the patch is still applied here
+            results = {}
+            for c in checks:
+                t = time.time()
+                rcc, outc = sh(["./check", c, "--tier", "quick"], cwd=VERIF, env={"EG_REPO": wt}, timeout=3000)
+                viol = [l for l in outc.split("\n") if l.startswith("VIOLATION")]
+                first_detail = ""
+                lines = outc.split("\n")
+                for i, l in enumerate(lines):
+                    if l.startswith("VIOLATION") and i + 1 < len(lines):
+                        first_detail = lines[i + 1].strip()[:400]
+                        break
+                results[c] = {"exit": rcc, "violations": len(viol), "first": (viol[0] if viol else ""),
+                              "detail": first_detail, "wall_s": round(time.time() - t, 1)}
+            meta["_results"] = results
     finally:
         sh(["git", "-C", "/repo", "worktree", "remove", "--force", wt])
         shutil.rmtree(wt, ignore_errors=True)
     meta["confirmed"] = bool(meta.get("demo_without_change") == 0 and meta.get("demo_with_change") not in (0, None)
                              and meta.get("suite_passes_with_change"))
+    if "--worktree" in sys.argv:
+        results = meta.pop("_results", {})
+        sh([PY, os.path.join(VERIF, "harness", "tables.py")], cwd=VERIF, env={"EG_REPO": "/repo"})
+        sh("git checkout -- lean/EG/Generated evidence 2>/dev/null; true", cwd=VERIF)
+        return finish(meta, results, mdir, sid, worktree=True)
     # 2: run the checks against /repo with the change applied
     rc, out = sh(["git", "-C", "/repo", "status", "--porcelain"])
     if out.strip():
@@ -90,6 +112,10 @@ def main():
         sh(["git", "-C", "/repo", "checkout", "--", "."])
         sh([PY, os.path.join(VERIF, "harness", "tables.py")], cwd=VERIF, env={"EG_REPO": "/repo"})
         sh("git checkout -- lean/EG/Generated evidence 2>/dev/null; true", cwd=VERIF)
+    return finish(meta, results, mdir, sid)
+
+
+def finish(meta, results, mdir, sid, worktree=False):
     meta["checks_quick"] = results
     meta["caught_by"] = [c for c, r in results.items() if r["exit"] == 1]
     meta["caught_with_failing_input"] = [c for c, r in results.items() if r["exit"] == 1 and "no-failing-input-found" not in r["first"]]
@@ -101,6 +127,10 @@ def main():
     meta["what_it_needs_to_manifest"] = "see notes.md (written by the independent sub-agent that produced the change)"
     meta["what_was_run"] = ("scratch worktree: demo without/with the change, full pytest suite with the change; then `git -C /repo apply patch.diff`, "
                             "`./check <id> --tier quick` for the listed checks, `git -C /repo checkout -- .`")
+    if worktree:
+        meta["what_was_run"] = ("scratch worktree of /repo: demo without/with the change, full pytest suite with the change, and "
+                                "`EG_REPO=<that worktree> ./check <id> --tier quick` for the listed checks with the change applied there "
+                                "(bulk re-run in parallel; /repo itself untouched)")
     json.dump(meta, open(os.path.join(out_dir, "meta.json"), "w"), indent=1)
     print(json.dumps({k: meta[k] for k in ("property", "confirmed", "caught_by", "caught_with_failing_input", "suite_with_change")}, indent=1))
     for c, r in results.items():
